@@ -181,6 +181,60 @@ def static_check(fc, cfg: Cfg):
                     {"pos": i}))
 
 
+def fingerprint(fc):
+    """Everything `explore` / `static_check` read from a compiled flow, with the uid part of every label,
+    scope and fork name replaced by the index of its first occurrence: two flows with the same fingerprint
+    have the same abstract graph (up to that renaming) and the same problems."""
+    ids = {}
+
+    def canon(name):
+        if name is None:
+            return None
+        return UUID_TAIL.sub(lambda m: "#%d" % ids.setdefault(m.group(0), len(ids)), str(name))
+
+    out = []
+    for e in fc.elements:
+        k = kind_of(e)
+        if isinstance(e, SpecOp):
+            out.append((k, e.spec.name if isinstance(e.spec, Spec) else None))
+        elif isinstance(e, Label):
+            out.append((k, canon(e.name)))
+        elif isinstance(e, Goto):
+            out.append((k, canon(e.label), e.expression == "True"))
+        elif isinstance(e, ForkHead):
+            out.append((k, canon(e.fork_uid), tuple(canon(x) for x in e.labels)))
+        elif isinstance(e, MergeHeads):
+            out.append((k, canon(e.fork_uid)))
+        elif isinstance(e, (CatchPatternFailure, Break, Continue)):
+            out.append((k, canon(e.label)))
+        elif isinstance(e, (BeginScope, EndScope)):
+            out.append((k, canon(e.name)))
+        else:
+            out.append((k,))
+    table = tuple(sorted((canon(n), p) for n, p in fc.element_labels.items()))
+    return (tuple(out), table)
+
+
+def duplicate_labels(fc):
+    """number of label names that are defined by more than one Label element (the expansion of `when`
+    emits the case part once per or-group and the else / end part once per case; `element_labels` keeps
+    the last position).  Not a problem by itself: every reference still denotes one position of the flow."""
+    seen = set()
+    dup = set()
+    for e in fc.elements:
+        if isinstance(e, Label):
+            if e.name in seen:
+                dup.add(e.name)
+            seen.add(e.name)
+    return len(dup)
+
+
+def shadowed_label_positions(fc):
+    """positions of Label elements whose name the table resolves to another (later) position"""
+    return [i for i, e in enumerate(fc.elements)
+            if isinstance(e, Label) and fc.element_labels.get(e.name) != i]
+
+
 def _label_class(name):
     s = norm_label(name)
     s = re.sub(r"_[a-z]_(\d+_)?label", "_label", s)      # case / group indices of `when`
